@@ -326,6 +326,65 @@ theorem env_ops_move_nothing {s s' : State} (op : Op) (hk : opKind op = .env) (h
   | send frm to ids => simp [opKind, stepInfo] at hk
   | mwithdraw mk ad to ids => simp [opKind, stepInfo] at hk
 
+/-- **messages_never_create_grants**: no message of the model creates or widens an authz
+authorization — every grant in force afterwards goes back to a grant (same granter, grantee,
+message type) in force before; consent cannot be manufactured by the messages it gates.
+(Count authorizations are consumed: see the single-use example below.) -/
+theorem messages_never_create_grants {s s' : State} (hinv : Inv s) (op : Op) (hk : opKind op ≠ .env)
+    (h : exec s op = .ok s') : GrantsSub s s' := by
+  cases op with
+  | write id owners vo sg => exact write_grants hinv h
+  | delete id sg => exact delete_grants hinv h
+  | updvo ids vo sg =>
+    simp only [exec] at h
+    unfold updateValueOwners at h
+    split at h
+    · simp at h
+    · cases hl : getScopeValueOwners s.ledger ids with
+      | error e => rw [hl] at h; simp at h
+      | ok links =>
+        rw [hl] at h; simp only at h
+        cases hv : validateUpdateValueOwners s links vo sg .updvo with
+        | error e => rw [hv] at h; simp at h
+        | ok r =>
+          obtain ⟨a, agents⟩ := r
+          rw [hv] at h; simp only at h
+          exact moveValueOwners_grants hv h
+  | migrate ex pr sg =>
+    simp only [exec] at h
+    unfold migrateValueOwner at h
+    split at h
+    · simp at h
+    · simp only at h
+      split at h
+      · simp at h
+      · cases hv : validateUpdateValueOwners s (scopesForValueOwner s.ledger ex) pr sg .migrate with
+        | error e => rw [hv] at h; simp at h
+        | ok r =>
+          obtain ⟨a, agents⟩ := r
+          rw [hv] at h; simp only at h
+          exact moveValueOwners_grants hv h
+  | send frm to ids =>
+    simp only [exec] at h
+    unfold bankSend at h
+    split at h
+    · simp at h
+    · split at h
+      · simp at h
+      · exact grantsSub_of_eq (sendCoins_frame h).grants
+  | mwithdraw mk ad to ids =>
+    simp only [exec] at h
+    unfold markerWithdraw at h
+    split at h
+    · simp at h
+    · split at h
+      · simp at h
+      · (repeat' (split at h)) <;> simp at h
+        all_goals (subst h; exact grantsSub_of_eq rfl)
+  | grant gr ge mt c => simp [opKind, stepInfo] at hk
+  | revoke gr ge mt => simp [opKind, stepInfo] at hk
+  | access m a ps => simp [opKind, stepInfo] at hk
+
 /-! ## The checker run on the implementation is the conjunction of the above
 
 `stepClause` (PvModel/VownerSpec.lean) is what the driver evaluates on two consecutive dumps of
